@@ -558,6 +558,9 @@ class FunctionVC:
                 spec, ename = sp, en
                 break
         cname = exc.cls.__name__ if exc.cls is not None else 'SymbolicException'
+        if spec is None and '*' in c.raises:
+            # '*': any exception, also one whose class the engine knows concretely
+            spec, ename = c.raises['*'], '*'
         if spec is None:
             I.oblige('%s.raises[%s].unexpected' % (self.qual, cname), z3.BoolVal(False),
                      'raises', {'text': 'no %s may escape' % cname})
